@@ -20,7 +20,7 @@ RULE = (
     "ordered pair (thorough: triple of the memoised queries) of queries is issued on a "
     "freshly rebuilt state and the last answer compared with the reference; for every "
     "dispatch edge and every reset, each query (and all of them) is asked before the "
-    "transition and all queries after it. Case = one query sequence in one state; "
+    "transition and all queries after it. Queries with arguments are written both positionally and with keyword arguments and must agree. Case = one query sequence in one state; "
     "non-trivial = sequence of >= 2 queries or crossing a transition, in a state reached by "
     ">= 1 dispatch."
 )
